@@ -40,7 +40,9 @@ RULE = ('one case = backend (dict / directory / zip / caching wrapper) x failure
         'such position failing with EMFILE from the operating system - descriptor limit 0 while the primitive runs, '
         'nothing injected - and identifiers of 247..251 characters / with a path separator whose temporary file name '
         'the file system refuses, 246 = the longest that works), `names` (identifiers spelled with dots, leading dot, '
-        '.json / .tmp endings, blanks, glob / quote characters, non-ASCII, case twins, maximal length: nothing may '
+        '.json / .tmp endings, blanks, glob / quote characters, non-ASCII, case twins, maximal length, and '
+        'since round 6 suffix twins: x next to x.tmp / x.json / x.json.tmp / x.tmp.json / x~ / x.new / x.bak / x.part on '
+        'both the stored and the new side, every shape on the directory backend: nothing may '
         'change), `share` + `dag` (a sub-template referenced from several parents at different depths in both orders; '
         'all DAGs over 2..4 named objects, sampled in the quick tier), `cache` (caching wrapper around directory and '
         'archive, observed through the wrapper object as well), `registry` (the PulseStorage is the default registry: '
@@ -512,6 +514,11 @@ SPELLINGS = [
     {0: 'p\u00fcls-0', 1: 'n1*', 2: 'n2?[a]', 3: "n3'\"", 4: 'n4%s', 5: 'n5\\x', 6: 'n6:1', 7: 'n7~', 8: '-n8'},
     {0: LONG(0, 246), 1: LONG(1, 246), 2: LONG(2, 200), 3: LONG(3, 246), 4: LONG(4, 246), 5: LONG(5, 246),
      6: LONG(6, 245), 7: LONG(7, 246), 8: LONG(8, 100)},
+    # round 6 (class of seed C11-10): TWINS - an identifier and the same identifier plus an ending a backend could use
+    # for a temporary / backup file; stored (0..3) and new (4..8) identifiers on both sides of a pair, so that the
+    # temporary file of one write would be the document of another identifier
+    {0: 'r', 1: 'k.tmp', 2: 'q.json', 3: 'r.tmp', 4: 'e', 5: 'k', 6: 'q', 7: 'e.tmp', 8: 'k.json.tmp'},
+    {0: 'r', 1: 'k~', 2: 'q.part', 3: 'r.new', 4: 'e', 5: 'k', 6: 'q', 7: 'e.bak', 8: 'k.tmp.json'},
 ]
 
 
@@ -562,9 +569,12 @@ def spelling_cases(backends, tier):
     specs = [(2, 'store_fresh', ['newleaf', 'newtree'], False), (2, 'overwrite_cached0', ['cached1', 'newleaf'], False),
              (2, 'overwrite_cached1', ['newtree'], True), (2, 'store_used', ['newleaf'], False)]
     j = 0
-    for names in SPELLINGS:
+    for jn, names in enumerate(SPELLINGS):
         for preset, rm, kinds, cleared in specs:
-            for b in (backends if tier == 'thorough' else [backends[j % len(backends)]]):
+            # the twin spellings (round 6) matter for the backends that derive file names from identifiers: every
+            # shape runs on the directory backend, plus one other backend in rotation
+            quick_b = [backends[j % len(backends)]] if jn < 3 else ['fs', ('zip', 'cfs', 'czip', 'cfs')[j % 4]]
+            for b in (backends if tier == 'thorough' else quick_b):
                 c = enum_case(b, preset, rm, kinds, cleared, 'partial' if j % 3 == 1 else 'raise')
                 _retag(c, 'names ' + c['note'][5:], names={str(k): v for k, v in names.items()})
                 if j % 4 == 0:
@@ -1278,8 +1288,12 @@ MANIFEST = {
                   'implies for every template (C11_repaired_crash_safe); the hypotheses are an invariant of histories of '
                   'completed / failed / killed operations (C11_repaired_history_safe).  An un-serializable object anywhere in a '
                   'template whose named nodes are all new is rejected with the disk unchanged (C11_unserializable_rejected).  '
-                  'TESTED ONLY, not proved: which identifier clashes are rejected and that this happens before the first '
-                  'backend call (it is the shape of the model; C11_error_before_write is definitional), un-serializable '
+                  'Two different objects under one identifier anywhere in a template whose named nodes below the root '
+                  'are new are rejected (EClash) with the disk unchanged (C11_clash_rejected, round 6).  '
+                  'TESTED ONLY, not proved: the other identifier clashes (another object cached under the identifier of a '
+                  'child, identifier stored but not cached, a replacement that contains the stored object it replaces) and '
+                  'that they are rejected before the first backend call (it is the shape of the model; '
+                  'C11_error_before_write is definitional), un-serializable '
                   'objects next to cached children, the CachingBackend wrapper, and clause '
                   '"no partial trace before the first write" on the implementation side is judged at the first mutating '
                   'primitive only (later non-publishing positions through the state-sequence comparison with the model).  '
@@ -1294,7 +1308,7 @@ MANIFEST = {
                   'C11_repaired_cycle_refuted), excluded by guard2_cycle / guard2_exact; the exact guard is necessary and '
                   'sufficient for clause (a), so nothing else is excluded; `classify` attributes a rejected case to the '
                   'finding only when the implementation behaved as the model, an operation is outside guard2_exact, every '
-                  'clause but loadability holds and the unloadable state is present and closed (a cycle).  31 of the 46 '
+                  'clause but loadability holds and the unloadable state is present and closed (a cycle).  31 of the 48 '
                   'theorems are about the model of the code BEFORE the round-4 repair (kept as the record of why the '
                   'repairs were needed).  dup-id-in-transaction was REPAIRED in round 4.  The model answers EClash for an '
                   'object met inside itself (impossible for immutable template trees).  Templates in the tests: '
